@@ -51,7 +51,7 @@ harness!(insert_then_check, 9, {
     core::mem::forget(f);
 });
 
-// @harness props=C20,C32 tier=thorough timeout=1800 desc="Sbbf::new(to_bytes(f)) has the same blocks as f, hence answers every check_hash alike (one block); byte strings whose length is not a multiple of 32 are rejected"
+// @harness props=C20,C32 tier=quick timeout=900 desc="Sbbf::new(to_bytes(f)) has the same blocks as f, hence answers every check_hash alike (one block); byte strings whose length is not a multiple of 32 are rejected"
 harness!(bytes_roundtrip, 34, {
     let n: usize = 1;
     let f = Sbbf::verif_any(n);
